@@ -1004,6 +1004,74 @@ def check_adaptive_dates(case):
                               "start:epoch" if start == 0 else "start:later"], ratio=worst)
 
 
+# ------------------------------------------------------------------ ranges that walk over a leap second
+
+
+LEAPS_UTC = [datetime(2015, 7, 1), datetime(2017, 1, 1), datetime(2012, 7, 1), datetime(2009, 1, 1), datetime(2006, 1, 1),
+             datetime(1999, 1, 1), datetime(1997, 7, 1)]
+
+
+def setup_real(shard):
+    env.eop("real")
+
+
+@st.composite
+def leap_range_case(draw):
+    """An analytical propagator iterated over UTC dates from before to after a leap second (or the other way round),
+    no sample within the two minutes around it that the library documents as not handled: the dates are the UTC grid, every state is the one of a direct propagation."""
+    step = draw(st.sampled_from([300, 420, 600, 900, 317]))
+    before = draw(st.integers(1, 30)) * step + draw(st.integers(130, step - 130))
+    after = draw(st.integers(1, 30)) * step
+    return dict(leap=draw(st.integers(0, len(LEAPS_UTC) - 1)), step=step, before=before, after=after,
+                kind=draw(st.sampled_from(["kepler", "kepler", "j2", "sgp4"])), backward=draw(st.booleans()),
+                route=draw(st.sampled_from(["iter", "iter", "ephemeris", "ephem"])),
+                epoch_off=draw(st.sampled_from([0, -3600, 7200, -86400])),
+                el=draw(go.elements(hyperbolic=False, emax_ell=0.3, rp_range=(1.05, 3.0))))
+
+
+def check_leap_range(case):
+    from beyond.dates import Date
+    from beyond.orbits import Orbit
+
+    leap = LEAPS_UTC[case["leap"]]
+    step = case["step"]
+    t_start = leap - timedelta(seconds=case["before"])
+    n = (case["before"] + case["after"]) // step
+    grid = [t_start + timedelta(seconds=k * step) for k in range(n + 1)]
+    if any(abs((g - leap).total_seconds()) < 125 for g in grid):
+        return dict(nt=False, cls=["sample-near-leap"])
+    mu = go.MU["Earth"]
+    el = case["el"]
+    epoch = Date(t_start + timedelta(seconds=case["epoch_off"]))
+    if case["kind"] == "sgp4":
+        nrev = min(max(math.sqrt(mu / el["a"] ** 3) * 86400 / (2 * math.pi), 2.0), 15.5)
+        orb = Orbit([el["i"], el["raan"], min(el["e"], 0.2), el["argp"], 0.3, nrev * 2 * math.pi / 86400.0], epoch, "TLE", "TEME",
+                    "Sgp4", bstar=1e-5, ndot=0.0, ndotdot=0.0, norad_id=25544, cospar_id="1998-067A", element_nb=1,
+                    revolutions=1, name="VERIF")
+    else:
+        cart = tb.kep2cart(el["a"], el["e"], el["i"], el["raan"], el["argp"], el["nu"], mu)
+        orb = Orbit(list(cart), epoch, "cartesian", "EME2000", "Kepler" if case["kind"] == "kepler" else "J2")
+    want = grid[::-1] if case["backward"] else grid
+    kw = dict(start=Date(want[0]), stop=Date(want[-1]), step=timedelta(seconds=step))
+    got = list({"iter": orb.iter, "ephemeris": orb.ephemeris, "ephem": lambda **k: iter(orb.ephem(**k))}[case["route"]](**kw))
+    what = (f"{case['kind']} {case['route']}({want[0]} .. {want[-1]} UTC every {step} s, across the leap second of {leap})")
+    dates = [g.date.datetime for g in got]
+    if case["route"] == "ephem":
+        want = sorted(want)  # an Ephem keeps its points in chronological order whatever the direction they were computed in
+    if dates != want:
+        raise Violation("leap-range-dates", f"{what}: {len(dates)} dates {dates[:2]} .. {dates[-2:]}, the UTC grid has "
+                        f"{len(want)}: {want[:2]} .. {want[-2:]}")
+    worst = 0.0
+    for g in got:
+        direct = np.asarray(orb.propagate(g.date).copy(form="cartesian").base, float)
+        mine = np.asarray(g.copy(form="cartesian").base, float)
+        d = float(np.linalg.norm(mine[:3] - direct[:3]))
+        worst = max(worst, d / 1e-6)
+        if not d <= 1e-6:
+            raise Violation("leap-range-state", f"{what}: the state yielded for {g.date} is {d:.6g} m from orb.propagate(that date)")
+    return dict(nt=True, cls=[case["kind"], "backward" if case["backward"] else "forward", f"route:{case['route']}"], ratio=worst)
+
+
 def _facet(kind, quick, thorough):
     return Facet(kind, (lambda s, t, k=kind: history(k)), check, setup=setup,
                  rule=">= 2 different kinds of call on the same objects and at least one backward / non-dividing / short / off-grid range (or an op excluded as a listed known finding, after which the history continued)",
@@ -1018,6 +1086,9 @@ FACETS = [
     _facet("keplernum", (8, 30), (16, 300)),
     _facet("cw", (2, 60), (6, 600)),
     _facet("ephem", (3, 60), (8, 600)),
+    Facet("across_leap_second", lambda s, t: leap_range_case(), check_leap_range, setup=setup_real,
+          rule="every case (no sample within 125 s of the leap second)",
+          quick=(4, 25), thorough=(8, 250)),
     Facet("adaptive_dates", lambda s, t: adaptive_dates_case(), check_adaptive_dates, setup=setup,
           rule="every case: a forward tabulation of an adaptive numerical propagator with an explicit output step",
           quick=(4, 40), thorough=(8, 400)),
